@@ -26,7 +26,7 @@ SPEC = {
         "design_ref": "DESIGN.md section 6 C16"},
     "streams": ["paths"],
     "witnesses": ["F3"],
-    "rule": ("deterministic matrix (11 fixed schemas, one built bottom-up with sub-schemas populated and READ (reference paths, get_all_fields, generated parser) before being attached, attached to a throw-away parent or under an earlier sibling key first (last attachment wins; random sub-schemas: read-before-attach with probability 0.25, re-attachment 0.25), one with sub-schemas created explicitly with env=False/True/str/default and registered by attribute and by item at every depth, one whose field and sub-schema keys are public members of Schema and of Config (names taken from dir() at generation time; random schemas get them with probability 0.3 and a random env setting with probability 0.5), two of them with keys whose option string has adjacent / trailing dashes: a_, b__c, class_.enabled, dry__run, x {empty command line, two generated command lines, hand-made namespace} "
+    "rule": ("deterministic matrix (13 fixed schemas, one built by dotted item assignment schema['a.b.c.d.n'] = field with 2..5 segments (creating the intermediate schemas / into explicitly created ones, next to attribute construction; random sub-schemas: probability 0.25), one whose str/int/float/bool leaves are NumberField(int|float) built directly, subclasses of the built-in classes and Field() with storage_type overridden on the instance (random leaves: probability 0.3), one built bottom-up with sub-schemas populated and READ (reference paths, get_all_fields, generated parser) before being attached, attached to a throw-away parent or under an earlier sibling key first (last attachment wins; random sub-schemas: read-before-attach with probability 0.25, re-attachment 0.25), one with sub-schemas created explicitly with env=False/True/str/default and registered by attribute and by item at every depth, one whose field and sub-schema keys are public members of Schema and of Config (names taken from dir() at generation time; random schemas get them with probability 0.3 and a random env setting with probability 0.5), two of them with keys whose option string has adjacent / trailing dashes: a_, b__c, class_.enabled, dry__run, x {empty command line, two generated command lines, hand-made namespace} "
              "+ 3 sub-schemas handed in directly) then seeded random schemas of depth <= 4 (identifier keys incl. trailing/double underscores, collision-free "
              "after the '.'/'_' -> '-' mapping; str/int/float/bool/any/list/dict/bytes/virtual/method leaves, nested "
              "schemas, config types; 10% keyed roots and 10% sub-schemas handed in directly for F40), each with missing / "
@@ -54,6 +54,8 @@ SPEC = {
                     "key is the key it is registered under: hypothesis wf); non-dynamic schemas",
                     "option strings / paths do not collide after the '.'/'_' -> '-' mapping (hypothesis of C16_parser_options; "
                     "argparse itself rejects a colliding schema)",
+                    "a Field() whose storage_type is overridden on the instance validates nothing: it is only ever given the "
+                    "values its built-in counterpart accepts unchanged (strings / switch booleans / None)",
                     "user-supplied getters/setters of virtual fields are constants / no-ops",
                     "values reaching a field are None/bool/int/float/str (what argparse and the histories produce); maps "
                     "assigned to sub-configurations and indexing below a plain value are Unmodelled and not generated"],
